@@ -122,7 +122,7 @@ def gen_stale_controller(rng):
 
 
 def generate(rng, tier):
-    n = 250 if tier == 'quick' else 2500
+    n = 250 if tier == 'quick' else 1800
     made = 0
     while made < n:
         if made % 5 == 4:
@@ -315,7 +315,7 @@ def stream_for(lines):
 
 def extra_checks(ctx):
     rng = random.Random(ctx.seed * 7907 + 19)
-    n = 300 if ctx.tier == 'quick' else 3000
+    n = 300 if ctx.tier == 'quick' else 2000
     scen = [gen_proto(rng) for _ in range(n)] + [gen_proto_lazy(rng) for _ in range(n)]
     proto_corpus = sorted((core.VERIF / 'corpus' / 'C19' / 'proto').glob('*.scn'))
     scen = [[ln for ln in f.read_text().splitlines() if ln.strip() and not ln.startswith('#')]
